@@ -93,13 +93,18 @@ def generate(seed, prop):
     pre = {"window_length_in_seconds": wl, "detrend": rng.choice(["linear", "constant"]),
            "filter": rng.choice([[None, None], [None, None], [0.2, None], [0.2, 20.0], [None, 24.0], [0.5, 40.0]]),
            "orient": rng.choice([0.0, 30.0, None, None])}     # None: leave every sensor as deployed
+    if rng.random() < 0.2:
+        # the other preprocessing class the command line accepts (its settings file only differs in the method entry and
+        # the extra steps): spectral differentiation of the whole record before it is cut into windows
+        pre["psd"] = {"differentiate": rng.random() < 0.7, "width": rng.choice([0.05, 0.1]),
+                      "fft_n": rng.choice([None, None, 4096])}
     proc = draw_processing(rng)
     order = list(range(n_files))
     rng.shuffle(order)
     if rng.random() < 0.08:
         order = order[:1]                            # a batch of one file
     nproc = rng.choice([None, 1, 2, 2, 3, 4, 6])
-    argv = {"order": order, "nproc": nproc, "cpus": rng.choice([2, 3, 4, 8]),
+    argv = {"order": order, "nproc": nproc, "cpus": rng.choice([1, 2, 3, 4, 8]),
             "dfn": rng.choice(["lognormal", "normal"]), "dmc": rng.choice(["lognormal", "normal"]),
             "no_figure": rng.random() < 0.92, "no_file": rng.random() < 0.04}
     sched = {"mode": rng.choice(["random", "random", "random", "fifo"]), "seed": rng.randrange(1 << 30),
@@ -148,6 +153,14 @@ def write_inputs(d, world):
                                      filter_corner_frequencies_in_hz=list(pre["filter"]),
                                      window_length_in_seconds=pre["window_length_in_seconds"], detrend=pre["detrend"],
                                      ignore_dissimilar_time_step_warning=True)
+    if pre.get("psd"):
+        ps = H.PsdPreProcessingSettings(orient_to_degrees_from_north=pre["orient"],
+                                        filter_corner_frequencies_in_hz=list(pre["filter"]),
+                                        window_length_in_seconds=pre["window_length_in_seconds"], detrend=pre["detrend"],
+                                        ignore_dissimilar_time_step_warning=True,
+                                        window_type_and_width=["tukey", pre["psd"]["width"]],
+                                        fft_settings=None if pre["psd"]["fft_n"] is None else {"n": pre["psd"]["fft_n"]},
+                                        differentiate=pre["psd"]["differentiate"])
     from .batch import make_settings
     qs = make_settings(H, world["proc"])
     pp, qp = os.path.join(d, "pre.json"), os.path.join(d, "proc.json")
